@@ -5,7 +5,7 @@ from sim import core as C, e2_history as E
 
 def one(i):
     rng = random.Random(i)
-    case = E.generate_sweep(rng, i, 128); case["keep_going"] = True
+    case = E.generate_sweep(rng, i, 192); case["keep_going"] = True
     if len(sys.argv) > 1: case["knobs"] = sys.argv[1]
     r = E.execute(case)
     return [(v["class"], v.get("finding_key"), v.get("detail", "")[:400]) for v in r.get("violations", [])]
@@ -13,7 +13,7 @@ def one(i):
 if __name__ == "__main__":
     os.makedirs("/dev/shm/vsim/cwd", exist_ok=True); os.chdir("/dev/shm/vsim/cwd")
     C.import_pyrefact()
-    res = C.run_batch(one, list(range(128)), timeout=1200)
+    res = C.run_batch(one, list(range(192)), timeout=1200)
     agg = collections.Counter(); ex = {}
     for st, r in res:
         if st != "ok": print("HARNESS", str(r)[:300]); continue
